@@ -24,6 +24,8 @@ Directives (each at the start of a line):
       //@beforestmt N / //@afterstmt N   (block) structural anchor: before/after the N-th top-level statement of the body (negative: from the end)
       //@beforetail                 (block) before the last top-level statement / tail expression of the body
       //@replace "pat" [#k|#all] => "text"     R-expr: logged textual replacement inside the function
+      //@replace? "pat" ... => "text"          same, but optional: if the construct is absent nothing is rewritten (use it for
+                                               rewrites that only work around a Verus limitation, so an edit that removes the construct stays decidable)
       //@sigreplace "pat" => "text" same, restricted to the signature
       //@idxloop N k                R-idx: rewrite the N-th loop `for P in E.iter_mut()[.enumerate()]` / `for P in &mut E` as index loop over `k`
       //@assert2panic               R-panic: assert!(c, ..) => if !(c) { vpanic() }
@@ -192,9 +194,14 @@ class FnUnit:
         # strip `pub` on struct fields / inner fns, doc comments and attributes inside items (struct fields)
         if self.kind in ("struct", "enum", "union"):
             new = []
+            open_attr = 0      # > 0 while inside a field attribute that spans several lines (`#[error(\n "..."\n )]`)
             for l in self.lines:
                 st = l.text.strip()
-                if st.startswith("///") or st.startswith("#["):
+                if open_attr > 0 or st.startswith("#["):
+                    bare = re.sub(r'"(?:[^"\\]|\\.)*"', '""', st)
+                    open_attr += bare.count("[") - bare.count("]")
+                    continue
+                if st.startswith("///"):
                     continue
                 t2 = re.sub(r"^(\s*)pub(\([^)]*\))?\s+", r"\1", l.text)
                 new.append(Line(t2, l.origin))
@@ -616,6 +623,8 @@ def assemble(unit_path, repo):
             elif d == "item":
                 fu = FnUnit(repo, arg, rel, i + 1)
                 fu.auto_rules()
+                if fu.kind == "fn" and fu.item.tbody_open is not None:
+                    fu.op_entry(["// @@CANARY-ENTRY@@ " + fu.fname], (rel, i + 1))
                 start = len(out)
                 out.extend(fu.lines)
                 log.extend(fu.log)
@@ -647,9 +656,12 @@ def assemble(unit_path, repo):
                 # order: structural rewrites first (replace, idxloop, assert2panic), then ret, then insertions
                 newname = None
                 for o in ops:
-                    if o[0] == "replace":
+                    if o[0] in ("replace", "replace?"):
                         pat, k, rest = parse_pat(o[1])
                         if not rest.startswith("=>"): raise Undecided("spec-syntax replace %s:%d" % (rel, o[3]))
+                        if o[0] == "replace?" and not find_code_occurrences(fu.joined(), pat):
+                            fu.log.append("R-expr (optional): pattern `%s` not present in %s, nothing to rewrite" % (pat, fu.label()))
+                            continue
                         fu.op_replace(pat, k, unq(rest[2:]))
                     elif o[0] == "sigreplace":
                         pat, k, rest = parse_pat(o[1])
@@ -687,11 +699,15 @@ def assemble(unit_path, repo):
                     if o[0] == "exit": fu.op_exit(o[2], (rel, o[3] + 1))
                 for o in ops:
                     if o[0] == "entry": fu.op_entry(o[2], (rel, o[3] + 1))
+                is_external = any(o[0] == "attr" and any("external_body" in x for x in o[2]) for o in ops)
+                if not is_external:
+                    # vacuity-canary marker: first thing in the body (a comment; replaced by `assert(false)` in the canary run)
+                    fu.op_entry(["// @@CANARY-ENTRY@@ " + (newname or fu.fname)], (rel, fu.specline))
                 for o in ops:
                     if o[0] == "spec": fu.op_spec(o[2], (rel, o[3] + 1))
                 for o in ops:
                     if o[0] == "attr": fu.op_attr(o[2], (rel, o[3] + 1))
-                known = {"replace", "sigreplace", "assert2panic", "idxloop", "ret", "name", "before", "afterline", "after",
+                known = {"replace", "replace?", "sigreplace", "assert2panic", "idxloop", "ret", "name", "before", "afterline", "after",
                          "loop", "exit", "entry", "spec", "attr", "keepdebug", "beforestmt", "afterstmt", "beforetail"}
                 for o in ops:
                     if o[0] not in known:
@@ -874,6 +890,10 @@ def check_unit(unit, repo="/repo", workdir=None, rlimit=None, keep=False, canary
         r["verified_fns"] = vr.get("verified", 0)
         r["error_fns"] = vr.get("errors", 0)
     r["function_results"] = [{"function": f["function"].split("::", 1)[-1], "mode": f.get("mode:"), "ms": f.get("time"), "ok": f.get("success")} for f in fb if f.get("mode:") in ("exec", "proof")]
+    # every exec-mode function Verus checked must be text extracted from the repository (a hand-written body would be a model)
+    emitted = set(fname for _, _, _, fname in asm["fn_regions"])
+    r["handwritten_exec"] = sorted(set(f["function"].split("::")[-1] for f in fb if f.get("mode:") == "exec") - emitted
+                                   - {"clone", "eq", "ne", "cmp", "partial_cmp", "default"})   # #[derive(..)]-generated
     r["obligations"] = (r.get("verified_fns", 0) or 0) + (r.get("error_fns", 0) or 0)
     r["discharged"] = r.get("verified_fns", 0) or 0
     vr = (js or {}).get("verification-results", {})
@@ -893,28 +913,19 @@ def check_unit(unit, repo="/repo", workdir=None, rlimit=None, keep=False, canary
         r["status"] = "pass"
     else:
         r["status"] = "undecided"; r["reason"] = "no obligations or unknown failure: " + res.get("stderr", "")[-400:]
+    if r["status"] == "pass" and r["handwritten_exec"]:
+        r["status"] = "undecided"; r["reason"] = "unit verifies executable code that was not extracted from the repository: " + ", ".join(r["handwritten_exec"])
     # ---- vacuity canary: `assert(false)` at the entry of every extracted function must FAIL
     if canary and r["status"] == "pass":
         cl = list(lines)
         ctext = []
         canary_lines = {}
-        # insert after the opening brace line of each fn region (first line in region whose text ends with '{' at body open)
         inserts = []
-        for a, b, label, fname in asm["fn_regions"]:
-            seg = "\n".join(l.text for l in cl[a:b + 1])
-            try:
-                s = Src(seg)
-                its = parse_items(s, 0, len(s.toks))
-                fnit = [x for x in its if x.kind == "fn"]
-                if not fnit or fnit[0].tbody_open is None: continue
-                bo = s.toks[fnit[0].tbody_open][1]
-                ln = seg[:bo].count("\n")
-                inserts.append((a + ln, bo - (seg.rfind("\n", 0, bo) + 1), fname))
-            except Exception:
-                continue
-        for ln, col, fname in sorted(inserts, reverse=True):
-            t = cl[ln].text
-            cl[ln:ln + 1] = [Line(t[:col + 1], cl[ln].origin), Line("proof { assert(false); } // CANARY " + fname, ("spec", "canary", 0)), Line(t[col + 1:], cl[ln].origin)]
+        for idx, l in enumerate(cl):
+            if l.text.strip().startswith("// @@CANARY-ENTRY@@"):
+                fname = l.text.strip().split("@@ ", 1)[1].strip() if "@@ " in l.text else "?"
+                inserts.append((idx, 0, fname))
+                cl[idx] = Line("proof { assert(false); } // CANARY " + fname, ("spec", "canary", 0))
         cpath = os.path.join(workdir, meta["unit"] + "__canary.rs")
         open(cpath, "w").write("\n".join(l.text for l in cl) + "\n")
         cres = run_verus(cpath, rlimit=rlimit)
@@ -929,7 +940,11 @@ def check_unit(unit, repo="/repo", workdir=None, rlimit=None, keep=False, canary
         expected = [f for _, _, f in inserts]
         missing = [f for f in expected if f not in hit]
         r["canary"] = {"expected": len(expected), "failed_as_expected": len([f for f in expected if f in hit]), "vacuous": missing}
-        if missing:
+        cvr = (cres.get("json") or {}).get("verification-results", {})
+        if cres.get("json") is None or cvr.get("encountered-vir-error") or (cvr.get("encountered-error") and not cvr.get("errors")):
+            r["status"] = "undecided"; r["reason"] = "canary-tool-error: the canary file was not accepted by rustc/Verus (not a vacuity verdict)"
+            r["canary"]["tool_error"] = True
+        elif missing:
             r["status"] = "undecided"; r["reason"] = "vacuous-precondition (canary assert(false) verified) in: " + ", ".join(missing)
         if not keep:
             try: os.remove(cpath)
